@@ -135,26 +135,37 @@ def newNamedLabel (s : St) (name : List (BitVec 8)) (ltype parent : Nat) : Res :
     if s.labels.any (fun l => l.ltype ≠ 0 ∧ l.name = name ∧ l.parent = par) then report s Err.labelAlreadyDefined
     else done ({ s with labels := s.labels ++ [{ name := name, ltype := ltype, parent := par }] })
 
-/-- one step of the `ResolveFixupIterator` loop of `bind_label`: `(patched section data, still unresolved?, error)` -/
-def resolveOne (data : Bytes) (toSec toOff : Nat) (f : Fixup) : Bytes × Bool × Bool :=
-  if f.reloc.isSome then (data, false, false)               -- relocation payload adjusted; resolved
-  else if f.sec ≠ toSec then (data, true, false)            -- cross-section: kept for resolve_cross_section_fixups
-  else
-    let disp : BitVec 64 := BitVec.ofNat 64 toOff - BitVec.ofNat 64 f.off + BitVec.ofInt 64 f.rel
-    match writeOffset data f.off disp f.fmt with
-    | some d => (d, false, false)
-    | none => (data, true, true)                            -- kInvalidDisplacement, fixup stays
+/-- the displacement `bind_label` patches into a pending fixup -/
+def dispOf (toOff : Nat) (f : Fixup) : BitVec 64 := BitVec.ofNat 64 toOff - BitVec.ofNat 64 f.off + BitVec.ofInt 64 f.rel
 
-def resolveAll (data : Bytes) (toSec toOff : Nat) : List Fixup → Bytes × List Fixup × Bool
-  | [] => (data, [], false)
+/-- `write_offset` would succeed: `encode_offset32/64` accepts the displacement for a 1/2/4/8 byte value (the C++ `write_offset` has no
+other way to fail - it does not look at buffer bounds) -/
+def encodable (f : OffsetFormat) (disp : BitVec 64) : Bool :=
+  if f.valueSize = 8 then (encodeOffset64 f disp).isSome
+  else if f.valueSize = 1 ∨ f.valueSize = 2 ∨ f.valueSize = 4 then (encodeOffset32 f disp).isSome
+  else false
+
+/-- the validation pass of `bind_label` (fix C14-13): a pending same-section fixup without relocation that cannot be encoded -/
+def unpatchable (toSec toOff : Nat) (f : Fixup) : Bool :=
+  f.reloc.isNone && f.sec == toSec && !encodable f.fmt (dispOf toOff f)
+
+/-- one step of the `ResolveFixupIterator` loop of `bind_label`: `(patched section data, still unresolved?)`.  After the validation
+pass `write_offset` cannot fail (same function, same arguments); `getD` only covers the model's own bounds refusal. -/
+def resolveOne (data : Bytes) (toSec toOff : Nat) (f : Fixup) : Bytes × Bool :=
+  if f.reloc.isSome then (data, false)                      -- relocation payload adjusted; resolved
+  else if f.sec ≠ toSec then (data, true)                   -- cross-section: kept for resolve_cross_section_fixups
+  else ((writeOffset data f.off (dispOf toOff f) f.fmt).getD data, false)
+
+def resolveAll (data : Bytes) (toSec toOff : Nat) : List Fixup → Bytes × List Fixup
+  | [] => (data, [])
   | f :: fs =>
-    let (d1, keep, bad) := resolveOne data toSec toOff f
-    let (d2, rest, bad2) := resolveAll d1 toSec toOff fs
-    (d2, if keep then f :: rest else rest, bad || bad2)
+    let (d1, keep) := resolveOne data toSec toOff f
+    let (d2, rest) := resolveAll d1 toSec toOff fs
+    (d2, if keep then f :: rest else rest)
 
 /-- `BaseAssembler::bind` -> `CodeHolder::bind_label(label, section, offset())`; `reset_inline_comment()`; report on error.
-Note the C++ binds the label *before* it patches: a displacement that does not fit returns `kInvalidDisplacement` with the label
-bound and the fixup moved to the global list (open finding C14-K1). -/
+With fix C14-13 `bind_label` first validates every pending same-section fixup of the label and returns `kInvalidDisplacement` before
+anything is modified; only then it binds the label and patches. -/
 def bind (s : St) (id : Nat) : Res :=
   let s := { s with one := { s.one with comment := false } }
   match s.labels[id]? with
@@ -164,15 +175,16 @@ def bind (s : St) (id : Nat) : Res :=
     else
       let toOff := s.offset
       let mine := s.pending.filter (·.label = id)
-      let others := s.pending.filter (·.label ≠ id)
-      let data := ((s.secs[s.cur]?).map (·.data)).getD []
-      let (data', keep, bad) := resolveAll data s.cur toOff mine
-      let s' := { s with
-        labels := s.labels.set id { le with bound := some (s.cur, toOff) },
-        pending := others,
-        global := keep ++ s.global,
-        secs := s.secs.modify s.cur (fun sec => { sec with data := data' }) }
-      if bad then report s' Err.invalidDisplacement else done s'
+      if mine.any (unpatchable s.cur toOff) then report s Err.invalidDisplacement
+      else
+        let others := s.pending.filter (·.label ≠ id)
+        let data := ((s.secs[s.cur]?).map (·.data)).getD []
+        let (data', keep) := resolveAll data s.cur toOff mine
+        done { s with
+          labels := s.labels.set id { le with bound := some (s.cur, toOff) },
+          pending := others,
+          global := keep ++ s.global,
+          secs := s.secs.modify s.cur (fun sec => { sec with data := data' }) }
 
 /-! ### align / embed -/
 
@@ -236,7 +248,7 @@ def embedLabel (s : St) (id size : Nat) : Res :=
                                reloc := some s.relocs } :: s1.pending }
       done (appendBytes s2 (zeros size))
 
-/-- `BaseAssembler::embed_label_delta` (after fix C03/#5 the bound-bound path would range check; the model writes the low bytes) -/
+/-- `BaseAssembler::embed_label_delta` -/
 def embedLabelDelta (s : St) (id base size : Nat) : Res :=
   match s.labels[id]?, s.labels[base]? with
   | some le, some be =>
@@ -245,7 +257,11 @@ def embedLabelDelta (s : St) (id base size : Nat) : Res :=
     else
       match le.bound, be.bound with
       | some (ls, lo), some (bs, bo) =>
-        if ls = bs then done (appendBytes s (leBytes ((BitVec.ofNat 64 lo - BitVec.ofNat 64 bo).toNat) size))
+        if ls = bs then
+          let delta : BitVec 64 := BitVec.ofNat 64 lo - BitVec.ofNat 64 bo
+          -- /repo fix for DESIGN.md defect #5: the delta is a signed quantity that must fit into `size` bytes
+          if size < 8 ∧ !isEncodableOffset64 delta (size * 8) then report s Err.invalidDisplacement
+          else done (appendBytes s (leBytes delta.toNat size))
         else done (appendBytes { s with relocs := s.relocs + 1 } (zeros size))
       | _, _ => done (appendBytes { s with relocs := s.relocs + 1 } (zeros size))
   | _, _ => report s Err.invalidLabel
@@ -378,11 +394,10 @@ def handled (s : St) : List Op → List Nat
     let r := step s op
     (if r.reported ∧ r.st.handler ≠ .none then [r.code] else []) ++ handled r.st ops
 
-/-- the class of open finding C14-K1: a `bind` (also the one inside `embed_const_pool`) whose pending same-section fixup does not
-reach the label -/
+/-- the class of the residual finding C14-K1: an `embed_const_pool` whose label has a pending fixup that the bind inside it cannot
+reach - the alignment padding has been appended when `bind` refuses (a plain `bind` is atomic since fix C14-13) -/
 def bindOverflows (s : St) : Op → Bool
-  | .bind id => (step s (.bind id)).code == Err.invalidDisplacement
-  | .embedConstPool id a d => (step s (.embedConstPool id a d)).code == Err.invalidDisplacement   -- the `bind` inside it
+  | .embedConstPool id a d => (step s (.embedConstPool id a d)).code == Err.invalidDisplacement
   | _ => false
 
 /-- no op of the history is in the class of finding C14-K1 -/
